@@ -1,5 +1,6 @@
 #pragma once
 #include "core.h"
+#include <set>
 
 namespace A {
 
@@ -16,6 +17,7 @@ struct RunResult {
 RunResult run_plan(const Plan &plan, Stats *total, bool want_allocs = false);
 Plan gen_plan(int prop, uint64_t runseed);
 void set_fatal_ctx(const Ctx &c, const Op &op);
+extern std::set<uint64_t> *g_sites;   // when set: hashes of every distinct site (operation kind + operand storage classes + outcome class) executed
 extern uint64_t g_run_index;     // index of the run being executed (goes into FATAL lines)
 
 // C19 fault enumeration (enum19.cpp)
